@@ -198,7 +198,23 @@ fn later_strategy() -> BoxedStrategy<Case> {
         .boxed()
 }
 fn default_strategy() -> BoxedStrategy<DCase> {
-    (any_kind(), vec(inp_finite(), 1..=90)).prop_map(|(kind, inputs)| DCase { kind, inputs }).boxed()
+    // any sign and size: a Default assembled by hand may start from other sentinels than new() does (a window
+    // pre-filled with 0 instead of -inf shows only on negative inputs)
+    (any_kind(), prop_oneof![3 => vec(inp_finite(), 1..=90), 1 => vec(inp_special(10), 1..=90)], prop_oneof![3 => Just(1.0f64), 2 => Just(-1.0), 1 => Just(1e-6), 1 => Just(-1e6), 1 => Just(0.0)])
+        .prop_map(|(kind, mut inputs, unit)| {
+            if unit != 1.0 {
+                for i in inputs.iter_mut() {
+                    let b = &mut i.bar;
+                    let (h, l) = (b.h * unit, b.l * unit);
+                    b.o *= unit;
+                    b.c *= unit;
+                    b.h = if h >= l || h.is_nan() { h } else { l };
+                    b.l = if h >= l || h.is_nan() { l } else { h };
+                }
+            }
+            DCase { kind, inputs }
+        })
+        .boxed()
 }
 
 pub fn run(g: &mut Global) {
@@ -242,6 +258,29 @@ pub fn run(g: &mut Global) {
     );
     let bc = boundary_cfgs();
     g.exhaustive("boundary", bc.len() as u64, &move |i| Case { cfg: bc[i as usize].clone(), later: vec![letter(1.0), letter(3.0), letter(2.0)], reset_at: Some(2) }, &check);
-    g.random("later_history", g.tier.pick(4000, 400000), &later_strategy, &check);
-    g.random("defaults", g.tier.pick(4000, 400000), &default_strategy, &check_default);
+    g.random("later_history", g.tier.pick(60000, 600000), &later_strategy, &check);
+    // a long life with a reset shortly before a power-of-two call count: a periodic rebuild that derives the
+    // parameters from the current state would change period()/Display exactly there
+    let seedl = g.seed;
+    g.exhaustive(
+        "long_life",
+        22 * 2 * 9 * 4,
+        &move |i| {
+            let kind = ALL_KINDS[(i % 22) as usize];
+            let r = i / 22;
+            let n = [3usize, 20][(r % 2) as usize];
+            let r = r / 2;
+            let pw = 1usize << (8 + (r % 9));
+            let j = [1usize, 2, n - 1, n][(r / 9) as usize % 4];
+            let mut st = seedl ^ (i + 11).wrapping_mul(0x9E3779B97F4A7C15);
+            let later: Vec<Inp> = (0..pw + 3).map(|_| letter(1.0 + (splitmix(&mut st) % 1000) as f64 / 8.0)).collect();
+            let mut cfg = cfg_small(kind, n);
+            if kind.has_mult() {
+                cfg.m = X(2.5);
+            }
+            Case { cfg, later, reset_at: Some(pw - j) }
+        },
+        &check,
+    );
+    g.random("defaults", g.tier.pick(60000, 600000), &default_strategy, &check_default);
 }
